@@ -133,3 +133,23 @@ Definition body_mat_void (s x : mat2) : mat2 * unit := (mat2_mul s x, tt).
 Definition body_bit (s : Z) (x : Z * Z) : Z * Z :=
   let ns := (s * fst x + snd x) mod 2 in (ns, (ns * snd x + s + fst x) mod 2).
 Definition body_bit_void (s : Z) (x : Z * Z) : Z * unit := ((s * fst x + snd x) mod 2, tt).
+
+(* ------------------------------------------------------------------ encodings of mappings
+   exponential_inliner.rs:227-262, single-bit case, modelled exactly: a mapping is the tuple
+   (image of 0, image of 1); bits are booleans, Add = xorb, Multiply = andb, x + 1 = negb x. *)
+Definition encode1 (g : bool -> bool) : bool * bool := (g false, g true).
+(* MappingCombiner1Bit::combine :230-243 *)
+Definition combine1 (m1 m2 : bool * bool) : bool * bool :=
+  let distinct := xorb (fst m2) (snd m2) in
+  (xorb (andb (fst m1) distinct) (fst m2), xorb (andb (snd m1) distinct) (fst m2)).
+(* extract_state_from_mapping, single_bit branch :254-262 *)
+Definition extract1 (m : bool * bool) (s : bool) : bool :=
+  xorb (andb (fst m) (negb s)) (andb (snd m) s).
+
+(* K-bit case (:76-83): states are the masks 0..m-1 (m = 2^K), a mapping is the m x m one-hot
+   matrix M[i][j] = (g i == j) over bits and the combiner is MatMul over bits.  Definitions only,
+   for the statement C07_small_state_matrix_encoding_full; the graph-level construction of these
+   matrices for batched states (reshape / permute_axes / get_slice) is not modelled. *)
+Definition onehot_matrix (g : nat -> nat) : nat -> nat -> bool := fun i j => Nat.eqb j (g i).
+Definition bit_matmul (m : nat) (A B : nat -> nat -> bool) : nat -> nat -> bool :=
+  fun i j => fold_left xorb (map (fun k => A i k && B k j) (seq 0 m)) false.
